@@ -1,4 +1,4 @@
-\* exhaustive: 2 mountpoints, 2 label sets, 3 Init requests (config generations), 3 manager processes, all failure injections
+\* exhaustive: 2 mountpoints, 2 label sets, 3 Init requests (config generations), 3 manager processes, all failure injections and crash points
 CONSTANTS
     NMp = 2
     Labs = {"la", "lb"}
